@@ -193,8 +193,8 @@ impl Property for C14 {
 
     fn runs(tier: Tier) -> u64 {
         match tier {
-            Tier::Quick => 30_000,
-            Tier::Thorough => 3_000_000,
+            Tier::Quick => 60_000,
+            Tier::Thorough => 6_000_000,
         }
     }
 
@@ -449,6 +449,7 @@ impl Property for C14 {
         Meta {
             level: "fault_enumeration",
             rule: "each run is a seeded binary (clean, or with 1-2 storage faults so that parse errors occur at known instruction numbers); the all-Continue run is checked against the protocol automaton initialize header instruction* finalize? and the reference acceptor, then every callback position k in {initialize, header, each instruction, finalize, one past the end} x {Stop, Error(unique tag)} is enumerated, plus 0-2 random multi-deviation scripts and the real Loader wrapped in a logging consumer; abstract trace = (fault kinds, result class, number of callbacks); non-trivial = >= 3 callbacks or a fired fault",
+            lanes: "every script also through parse_words (logs and results must agree); consumer errors of type ParseState / dr::Error; ext-inst hot spot; MAGIC fault value; clause finalize-only-complete against the reference acceptor",
             triple_measure: "(callback kind at the deviation, action, outcome class of the undisturbed parse)",
             item_measure: "n/a",
             assumptions: &[
